@@ -315,6 +315,20 @@ func (w *World) Voteproof(h, r int64, stage int, th10 int, maj int, sfs []aSF, e
 		v.SetExpels(rex)
 		v.Finish()
 		real = v
+	case stage == 0 && kind == vkStuck:
+		v := isaac.NewINITStuckVoteproof(p)
+		v.SetSignFacts(rsfs).SetMajority(nil)
+		v.SetExpels(rex)
+		v.Finish()
+		real = v
+		th10, maj = 1000, -1
+	case stage == 1 && kind == vkStuck:
+		v := isaac.NewACCEPTStuckVoteproof(p)
+		v.SetSignFacts(rsfs).SetMajority(nil)
+		v.SetExpels(rex)
+		v.Finish()
+		real = v
+		th10, maj = 1000, -1
 	default:
 		panic("unsupported voteproof kind")
 	}
